@@ -6,17 +6,23 @@
    [hdrdec] is the CBOR header decoder (an oracle, universally quantified); the theorems that
    need it to invert the encoder say so ([hdr_good], [pragma_good]) and both hold for the
    model's canonical decoder ([hdr_good_canon], [pragma_good_canon]). *)
-From GoCar Require Import Bytes Varint Cid Header Frame V2Header Scan Index Transform.
-From GoCarProofs Require Import BytesFacts VarintFacts CidFacts HeaderFacts ScanFacts
-  TransformFacts TransformWrap TransformReplace TransformExamples.
+From Coq Require Import Permutation Sorting.Sorted.
+From GoCar Require Import Bytes Varint Cid Header Frame V2Header Scan Index IndexGen Transform.
+From GoCarProofs Require Import BytesFacts VarintFacts CidFacts HeaderFacts ScanFacts IndexSort IndexLoad
+  IndexGenFacts TransformFacts TransformWrap TransformReplace TransformIndexGen TransformExamples.
+
+(* [srt] is what sort.Sort does inside an index bucket (unstable: the order inside a run of equal
+   digests is unspecified).  The layout theorems hold for EVERY function srt; the index-correctness
+   theorem needs its contract (a digest-ascending permutation), which the model's own stable sort
+   meets (C11_model_sort_meets_contract).  [wrap_bytes] = [wrap_bytes_with sort_by_digest]. *)
 
 (* ---- wrap ------------------------------------------------------------------------------------- *)
 (* for EVERY source x (valid or not): if WrapV1 succeeds it wrote the pragma, NewHeader(|x|), x
    verbatim, and the serialized index of the records LoadIndex produced from x *)
 Theorem C10_wrap_layout_any :
-  forall hdrdec o x w, wrap_bytes hdrdec o x = Ok w ->
-    exists i0 recs, idx_new (x_codec o) = Some i0 /\ load_index hdrdec o x = Ok recs /\
-      w = pragma ++ enc_v2hdr (new_header (blen x)) ++ x ++ idx_write (idx_load recs i0).
+  forall hdrdec srt o x w, wrap_bytes_with hdrdec srt o x = Ok w ->
+    exists i0 recs, idx_new (x_codec o) = Some i0 /\ Transform.load_index hdrdec o x = Ok recs /\
+      w = pragma ++ enc_v2hdr (new_header (blen x)) ++ x ++ idx_write (idx_load_with srt recs i0).
 Proof. exact wrap_layout_any. Qed.
 Print Assumptions C10_wrap_layout_any.
 
@@ -24,28 +30,108 @@ Print Assumptions C10_wrap_layout_any.
    and the index holds exactly one record per non-identity section (every section with
    StoreIdentityCIDs) at the offset of the section's length varint *)
 Theorem C10_wrap_layout :
-  forall hdrdec o roots bs i0,
+  forall hdrdec srt o roots bs i0,
     hdr_good hdrdec roots /\
     blen (enc_header (Some roots) 1) <= x_maxh o /\
     Forall (fun b : block =>
-              exists p, cid_ok p /\ fst b = cid_enc p /\ blen (c_digest p) <= max_digest_alloc /\
+              exists p, cid_ok p /\ fst b = cid_enc p /\ blen (c_digest p) + 8 <= max_width /\
                         blen (fst b) + blen (snd b) < two63 /\
                         (x_storeid o || negb (is_identity p) = true -> blen (fst b) <= x_maxcid o)) bs /\
     blen (enc_payload roots bs) <= x_maxseek o /\ blen (enc_payload roots bs) < two63 ->
     idx_new (x_codec o) = Some i0 ->
     let x := enc_payload roots bs in
-    wrap_bytes hdrdec o x
+    wrap_bytes_with hdrdec srt o x
     = Ok (pragma ++ enc_v2hdr (new_header (blen x)) ++ x ++
-          idx_write (idx_load (spec_records (x_storeid o) (blen (ld (enc_header (Some roots) 1))) bs) i0)).
+          idx_write (idx_load_with srt (spec_records (x_storeid o) (blen (ld (enc_header (Some roots) 1))) bs) i0)).
 Proof. exact wrap_layout_payload. Qed.
 Print Assumptions C10_wrap_layout.
+
+(* a CARv2 as the SOURCE (WrapV1 does not refuse it): any characteristics, index offset, padding
+   bytes and trailer around a constructed payload.  The WHOLE file becomes the new payload and the
+   appended index is that of the INNER CARv1 -- offsets relative to the inner payload, so it does
+   not describe the new container's own payload (which is not a CARv1 anyway). *)
+Theorem C10_wrap_layout_carv2_source :
+  forall hdrdec srt o hi lo ioff pad roots bs trailer i0,
+    (exists rs, hdrdec pragma_body = Some (rs, 2)) -> 10 <= x_maxh o -> hdr_good hdrdec roots ->
+    blen (enc_header (Some roots) 1) <= x_maxh o ->
+    Forall (fun b : block =>
+              exists p, cid_ok p /\ fst b = cid_enc p /\ blen (c_digest p) + 8 <= max_width /\
+                        blen (fst b) + blen (snd b) < two63 /\
+                        (x_storeid o || negb (is_identity p) = true -> blen (fst b) <= x_maxcid o)) bs ->
+    hi < two64 -> lo < two64 -> ioff < two63 ->
+    let x := pragma ++ enc_v2hdr (mkv2 hi lo (51 + blen pad) (blen (enc_payload roots bs)) ioff) ++
+             pad ++ enc_payload roots bs ++ trailer in
+    blen x <= x_maxseek o -> blen x < two63 ->
+    idx_new (x_codec o) = Some i0 ->
+    wrap_bytes_with hdrdec srt o x
+    = Ok (pragma ++ enc_v2hdr (new_header (blen x)) ++ x ++
+          idx_write (idx_load_with srt (spec_records (x_storeid o) (blen (ld (enc_header (Some roots) 1))) bs) i0)).
+Proof. exact wrap_layout_container. Qed.
+Print Assumptions C10_wrap_layout_carv2_source.
+
+(* ONE model of LoadIndex.  For every byte string and all options, the copy of LoadIndex that WrapV1
+   runs ([Transform.load_index], which also knows the file system's largest seekable offset) returns
+   what C03's model returns for a seekable source ([IndexGen.load_index _ SrcSeek]) -- or, only when
+   the file system's limit is below int64's, the "seek refused" error.  So every C03 statement about
+   LoadIndex (records, options, source independence) is a statement about WrapV1's index generation. *)
+Theorem C10_load_index_is_C03s :
+  forall hdrdec o all,
+    let g := mkgopts (x_zeof o) (x_maxh o) (x_storeid o) (x_maxcid o) in
+    (Transform.load_index hdrdec o all = IndexGen.load_index hdrdec SrcSeek g all
+     \/ (x_maxseek o < two63 - 1 /\ Transform.load_index hdrdec o all = Err EOther))
+    /\ (two63 - 1 <= x_maxseek o ->
+        Transform.load_index hdrdec o all = IndexGen.load_index hdrdec SrcSeek g all)
+    /\ (forall recs, Transform.load_index hdrdec o all = Ok recs ->
+                     IndexGen.load_index hdrdec SrcSeek g all = Ok recs).
+Proof.
+  exact (fun hdrdec o all => conj (load_index_rel hdrdec o all)
+           (conj (load_index_is_indexgen hdrdec o all) (load_index_sound_indexgen hdrdec o all))).
+Qed.
+Print Assumptions C10_load_index_is_C03s.
+
+(* "a correct index": on every constructed CARv1 the options accept, for any behaviour of sort.Sort
+   within its contract, the CARv2 that WrapV1 writes has at its header's IndexOffset bytes that
+   index.ReadFrom reads back, entirely, into an index whose GetAll returns, for every key, exactly
+   the (payload-relative) offsets of the indexed sections carrying that key, each of which is where
+   that section starts in x.  (C03_lookup_exact / C03_lookup_sound and C11_roundtrip, composed with
+   the layout theorem.)  [fits]: the record set fits one allocation and, for the multihash codec,
+   fewer than 2^31 distinct hash codes (Go's int32 count) -- C11's conditions. *)
+Theorem C10_wrap_index_correct :
+  forall hdrdec (srt : list irec -> list irec),
+    (forall l, Permutation (srt l) l /\
+               StronglySorted (fun a b => bytes_leb (r_digest a) (r_digest b) = true) (srt l)) ->
+  forall o roots bs i0,
+    hdr_good hdrdec roots /\
+    blen (enc_header (Some roots) 1) <= x_maxh o /\
+    Forall (fun b : block =>
+              exists p, cid_ok p /\ fst b = cid_enc p /\ blen (c_digest p) + 8 <= max_width /\
+                        blen (fst b) + blen (snd b) < two63 /\
+                        (x_storeid o || negb (is_identity p) = true -> blen (fst b) <= x_maxcid o)) bs /\
+    blen (enc_payload roots bs) <= x_maxseek o /\ blen (enc_payload roots bs) < two63 ->
+    idx_new (x_codec o) = Some i0 ->
+    let g := mkgopts (x_zeof o) (x_maxh o) (x_storeid o) (x_maxcid o) in
+    let hl := ld_size (blen (enc_header (Some roots) 1)) in
+    let x := enc_payload roots bs in
+    (blen (compact (section_recs g hl bs)) <= max_alloc /\
+     (x_codec o = codec_mh_sorted -> N.of_nat (length (group_by r_code (section_recs g hl bs))) < two31)) ->
+    exists i w,
+      wrap_bytes_with hdrdec srt o x = Ok w /\
+      w = pragma ++ enc_v2hdr (new_header (blen x)) ++ x ++ idx_write i /\
+      idx_read (drop (h_ioff (new_header (blen x))) w) = Ok (i, []) /\
+      (forall code d, Permutation (idx_getall i code d)
+                                  (spec_lookup g (negb (x_codec o =? codec_sorted)) code d hl bs)) /\
+      (forall code d off, In off (idx_getall i code d) ->
+         exists c dd, section_at x off = Some (c, dd) /\ section_indexed g c = true /\
+                      key_match (negb (x_codec o =? codec_sorted)) code d c = true).
+Proof. exact wrap_index_correct. Qed.
+Print Assumptions C10_wrap_index_correct.
 
 (* WrapV1File to another path: the source file is not modified; on failure the destination
    exists and is empty *)
 Theorem C10_wrap_file :
-  forall hdrdec o x d,
-    wrap_file hdrdec o (mkfs (Some x) (DOther d))
-    = match wrap_bytes hdrdec o x with
+  forall hdrdec srt o x d,
+    wrap_file_with hdrdec srt o (mkfs (Some x) (DOther d))
+    = match wrap_bytes_with hdrdec srt o x with
       | Ok w => (Ok tt, mkfs (Some x) (DOther (Some w)))
       | Err e => (Err e, mkfs (Some x) (DOther (Some [])))
       end.
@@ -54,7 +140,7 @@ Print Assumptions C10_wrap_file.
 
 (* the section loop of LoadIndex terminates on every input (the model's fuel never runs out) *)
 Theorem C10_wrap_terminates :
-  forall hdrdec o x, wrap_bytes hdrdec o x <> Err EFuel.
+  forall hdrdec srt o x, wrap_bytes_with hdrdec srt o x <> Err EFuel.
 Proof. exact wrap_bytes_fuel_enough. Qed.
 Print Assumptions C10_wrap_terminates.
 
@@ -76,6 +162,45 @@ Theorem C10_extract_exact :
     (dst <> DSame -> f_src s' = Some a).
 Proof. exact extract_exact. Qed.
 Print Assumptions C10_extract_exact.
+
+(* exactly which CARv2 headers are accepted: for ALL uint64 field values, Header.ReadFrom on the 40
+   encoded bytes succeeds iff data offset >= 51, data size > 0, and data offset / data size / index
+   offset are non-negative as int64.  Characteristics and the VALUE of the index offset (inside the
+   payload, before it, past the end of the file) are never looked at. *)
+Theorem C10_extract_header_acceptance :
+  forall h rest,
+    h_hi h < two64 -> h_lo h < two64 -> h_doff h < two64 -> h_dsize h < two64 -> h_ioff h < two64 ->
+    read_v2hdr (enc_v2hdr h ++ rest)
+    = if (51 <=? h_doff h) && (h_doff h <? two63) && (0 <? h_dsize h) && (h_dsize h <? two63) &&
+         (h_ioff h <? two63)
+      then Ok (h, rest) else Err EOther.
+Proof. exact read_v2hdr_enc_exact. Qed.
+Print Assumptions C10_extract_header_acceptance.
+
+(* ... and what ExtractV1File does for EVERY such header on a = pragma ++ header ++ body, every
+   destination state and chunk schedule: accepted and the file holds the window => exactly the window
+   (an embedded index, index padding, an index offset pointing into the payload change nothing);
+   accepted but the window runs past the end of the file => io.EOF after copying what there is;
+   not accepted (or the seek is refused) => an error, nothing created or modified *)
+Theorem C10_extract_container :
+  forall hdrdec csz o h body dst,
+    (forall k, 0 < csz k) ->
+    (exists rs, hdrdec pragma_body = Some (rs, 2)) -> 10 <= x_maxh o ->
+    h_hi h < two64 -> h_lo h < two64 -> h_doff h < two64 -> h_dsize h < two64 -> h_ioff h < two64 ->
+    let a := pragma ++ enc_v2hdr h ++ body in
+    let s := mkfs (Some a) dst in
+    if v2hdr_accepted h && seek_ok o (h_doff h) then
+      if h_doff h + h_dsize h <=? blen a then
+        fst (extract_file hdrdec csz o s) = XOk /\
+        dst_content (snd (extract_file hdrdec csz o s)) = Some (take (h_dsize h) (drop (h_doff h) a)) /\
+        (dst <> DSame -> f_src (snd (extract_file hdrdec csz o s)) = Some a)
+      else
+        extract_file hdrdec csz o s
+        = (XErr EEof, set_dst s (drop (h_doff h) a ++
+                                 drop (blen a - h_doff h) (match dst_content s with Some d => d | None => [] end)))
+    else extract_file hdrdec csz o s = (XErr EOther, s).
+Proof. exact extract_container. Qed.
+Print Assumptions C10_extract_container.
 
 (* the in-place (and every other) copy does not depend on how it is chunked: for ALL file-system
    states and options, any two positive chunk schedules give the same result *)
@@ -122,9 +247,9 @@ Print Assumptions C10_extract_rejects_untouched.
    int64 (|x| + 51 < 2^63), the decoder reads the pragma back as version 2, the extract options
    accept the 10-byte pragma and a seek to offset 51. *)
 Theorem C10_extract_wrap :
-  forall hdrdec csz ow oe x w dst,
+  forall hdrdec srt csz ow oe x w dst,
     (forall k, 0 < csz k) ->
-    wrap_bytes hdrdec ow x = Ok w ->
+    wrap_bytes_with hdrdec srt ow x = Ok w ->
     blen x + 51 < two63 ->
     (exists rs, hdrdec pragma_body = Some (rs, 2)) -> 10 <= x_maxh oe -> seek_ok oe 51 = true ->
     let '(r, s') := extract_file hdrdec csz oe (mkfs (Some w) dst) in
